@@ -89,11 +89,14 @@ def nextInputs (s : St) : Option (Bool × Inp) × St :=
       | [] => (none, { s with depleted := true })
       | i :: rest => (some (false, i), { s with src := rest })
 
-/-- `handle_unused_data` -/
-def unused (c : Cfg) (s : St) (inp : Inp) (fromRetries : Bool) : St :=
-  if !c.retry then s
-  else if fromRetries then { s with retries := inp :: s.retries }
+/-- put an input back on the retry list: at its head if it came from there, else at the end -/
+def putBack (s : St) (inp : Inp) (fromRetries : Bool) : St :=
+  if fromRetries then { s with retries := inp :: s.retries }
   else { s with retries := s.retries ++ [inp] }
+
+/-- `handle_unused_data(data, from_retries)` for an input whose worker is dead or closed: kept only when retry is on -/
+def unused (c : Cfg) (s : St) (inp : Inp) (fromRetries : Bool) : St :=
+  if !c.retry then s else putBack s inp fromRetries
 
 /-- ghost bookkeeping for `handle_unused_data` called because worker `w` is dead or closed: with retry
     disabled the input is given up -/
@@ -121,37 +124,45 @@ def doEnqueue (s : St) (w : Nat) (inp : Inp) : St :=
   let s := setW s w { x with inbox := x.inbox ++ [inp], ppw := x.ppw ++ [inp] }
   { s with pending := s.pending + 1, enq := s.enq ++ [(w, inp)] }
 
+/-- idle workers that the current `handle_death` round has not skipped (`get_next_idle_worker(skipped)`) -/
+def avail (s : St) (skip : List Nat) : List Nat := (idle s).filter (fun w => !skip.contains w)
+
 /-- The `while self._retries:` loop of `handle_death`, including the deaths it discovers
     itself (nested `handle_death` calls made by `try_enqueue`). `pick` is the (arbitrary)
-    choice `next(iter(idle))`. -/
-def settle (c : Cfg) (pick : List Nat → Option Nat) : Nat → St → St
-  | 0, s => if s.retries.isEmpty then s else
-      match pick (idle s) with
+    choice `next(iter(idle))`; `skip` is the set `skipped` of workers that did not take what they
+    were offered in this round (each nested `handle_death` starts its own). -/
+def settle (c : Cfg) (pick : List Nat → Option Nat) : Nat → List Nat → St → St
+  | 0, skip, s => if s.retries.isEmpty then s else
+      match pick (avail s skip) with
       | none => s
       | some _ => { s with err := some .outOfFuel }
-  | fuel + 1, s =>
+  | fuel + 1, skip, s =>
     match s.retries with
     | [] => s
     | inp :: rest =>
-      match pick (idle s) with
+      match pick (avail s skip) with
       | none => s
       | some w =>
+        let waiting := s.retries.length
         -- try_enqueue(idle): next_inputs pops the head of retries
         let s := { s with retries := rest }
-        if c.refuse w inp then
-          -- enqueue_fn returned False: handle_unused_data(inp, from_retries=True)
-          settle c pick fuel { s with retries := inp :: s.retries }
-        else if (getW s w).alive then
-          settle c pick fuel (doEnqueue s w inp)
-        else
-          -- enqueue raised, worker is dead: handle_death(idle) (its own loop first) ...
-          let s := settle c pick fuel (markDead c s w)
-          -- ... then handle_unused_data(inp, True), then the outer loop goes on
-          settle c pick fuel (unused c (giveUp c s w inp) inp true)
+        let s' :=
+          if c.refuse w inp then
+            -- enqueue_fn returned False: handle_unused_data(inp, from_retries=True)
+            { s with retries := inp :: s.retries }
+          else if (getW s w).alive then doEnqueue s w inp
+          else
+            -- enqueue raised, worker is dead: handle_death(idle) (its own loop first) ...
+            let s := settle c pick fuel [] (markDead c s w)
+            -- ... then handle_unused_data(inp, True)
+            unused c (giveUp c s w inp) inp true
+        -- `if len(self._retries) >= waiting: skipped.add(idle.id)`, then the loop goes on
+        settle c pick fuel (if waiting ≤ s'.retries.length then w :: skip else skip) s'
 
-/-- `handle_death` -/
+/-- `handle_death`. The fuel bounds the number of rounds of the loop including those of the nested calls: every
+    round closes a worker, makes an idle worker busy or adds a worker to `skipped` (`Lemmas/PoolF.lean`). -/
 def handleDeath (c : Cfg) (pick : List Nat → Option Nat) (s : St) (w : Nat) : St :=
-  settle c pick (s.ws.length + 1) (markDead c s w)
+  settle c pick ((s.ws.length + 1) * (s.ws.length + 1)) [] (markDead c s w)
 
 /-- `try_enqueue(worker)`; the Bool is its return value ("there was data") -/
 def tryEnqueue (c : Cfg) (pick : List Nat → Option Nat) (s : St) (w : Nat) : St × Bool :=
@@ -159,7 +170,9 @@ def tryEnqueue (c : Cfg) (pick : List Nat → Option Nat) (s : St) (w : Nat) : S
   | (none, s) => (s, false)
   | (some (fromRetries, inp), s) =>
     if (getW s w).closed then (unused c (giveUp c s w inp) inp fromRetries, true)
-    else if c.refuse w inp then (unused c s inp fromRetries, true)
+    -- refused by the user `enqueue_fn`: `handle_unused_data(inp, from_retries, keep=True)` - nobody died, the input
+    -- waits for another worker whatever the retry policy
+    else if c.refuse w inp then (putBack s inp fromRetries, true)
     else if (getW s w).alive then (doEnqueue s w inp, true)
     else (unused c (giveUp c (handleDeath c pick s w) w inp) inp fromRetries, true)
 
